@@ -183,7 +183,7 @@ package tree
 //@   modifies t.lastIndex, t.lastLeftCache
 //@   ensures[failed-rebuild-leaves-frontier-untouched] result != nil ==> t.lastIndex == old(t.lastIndex) && t.lastLeftCache == old(t.lastLeftCache)
 //@   ensures[rebuilt-index] result == nil ==> t.lastIndex == rootLastIdx(t.Tree)
-//@   ensures[rebuilt-frontier-is-contract-frontier] (result == nil && rootLastIdx(t.Tree) >= 0 && rootLastIdx(t.Tree) < 4294967295 && rootHash(t.Tree)[rootLastIdx(t.Tree)] == solRootI(solBranch(t), rootLastIdx(t.Tree), 32)) ==> forall(k, 0, 32, bitSucc(rootLastIdx(t.Tree), k) ==> t.lastLeftCache[k] == solBranch(t)[k])
+//@   ensureslocal[rebuilt-frontier-is-contract-frontier] (result == nil && rootLastIdx(t.Tree) >= 0 && rootLastIdx(t.Tree) < 4294967295 && rootHash(t.Tree)[rootLastIdx(t.Tree)] == solRootI(solBranch(t), rootLastIdx(t.Tree), 32)) ==> forall(k, 0, 32, bitSucc(rootLastIdx(t.Tree), k) ==> t.lastLeftCache[k] == solBranch(t)[k])
 //@   loop 0 unroll 32
 //@   loop 0 invariant index == lastRoot.Index && lastRoot.Index == rootLastIdx(t.Tree) && lastRoot.Hash == rootHash(t.Tree)[rootLastIdx(t.Tree)]
 //@   loop 0 invariant (rootHash(t.Tree)[rootLastIdx(t.Tree)] == solRootI(solBranch(t), lastRoot.Index, 32) && !allOnes(lastRoot.Index, h + 1)) ==> currentNodeHash == solRootI(solBranch(t), lastRoot.Index, h + 1)
